@@ -96,11 +96,13 @@ impl<R: Registry> VxRawTable<R> {
         &&& forall|i: int, j: int| 0 <= i < j < keys.len() ==> keys[i] != keys[j]
         &&& forall|k: archetype::IdentifierRef<R>| self@.dom().contains(k) == keys.contains(k)
     }
+    /// number of stored tables
+    pub uninterp spec fn count(&self) -> nat;
     #[verifier::external_body]
     pub fn vx_keys(&self) -> (r: Ghost<Seq<archetype::IdentifierRef<R>>>)
-        ensures self.enumerates(r@), r@.len() <= usize::MAX { unimplemented!() }
+        ensures self.enumerates(r@), r@.len() <= usize::MAX, r@.len() == self.count() { unimplemented!() }
     #[verifier::external_body]
-    pub fn len(&self) -> (n: usize) { unimplemented!() }
+    pub fn len(&self) -> (n: usize) ensures n == self.count() { unimplemented!() }
     #[verifier::external_body]
     pub fn vx_len(&self, keys: Ghost<Seq<archetype::IdentifierRef<R>>>) -> (n: usize)
         requires self.enumerates(keys@),
@@ -226,6 +228,18 @@ pub fn vx_archetype_clone<R: Registry>(a: &archetype::Archetype<R>) -> (r: arche
 pub fn vx_archetype_clone_from<R: Registry>(a: &mut archetype::Archetype<R>, source: &archetype::Archetype<R>)
     requires old(a).wf(), source.wf(),
     ensures final(a).wf(), final(a).key() == old(a).key(), final(a).length == source.length, final(a).ids() == source.ids(), final(a).rows() == source.rows() { unimplemented!() }
+
+/// `Archetype::component_eq` (R6, assumed contract; K-eq decides it on the real code): the
+/// identifier columns and every component cell of the two tables are equal
+pub uninterp spec fn vx_tables_eq<R: Registry>(a: archetype::Archetype<R>, b: archetype::Archetype<R>) -> bool;
+#[verifier::external_body]
+pub unsafe fn vx_component_eq<R: Registry>(a: &archetype::Archetype<R>, b: &archetype::Archetype<R>) -> (r: bool)
+    requires vx_key_bits(a.key()) == vx_key_bits(b.key()),
+    ensures r == vx_tables_eq(*a, *b) { unimplemented!() }
+/// C16: table `t` has a table of the same component set in `m` that is component-equal to it
+pub open spec fn vx_has_equal_partner<R: Registry>(t: archetype::Archetype<R>, m: IMap<archetype::IdentifierRef<R>, archetype::Archetype<R>>) -> bool {
+    exists|k2: archetype::IdentifierRef<R>| m.dom().contains(k2) && vx_key_bits(k2) == vx_key_bits(t.key()) && vx_tables_eq(t, #[trigger] m[k2])
+}
 
 /// every stored table is well formed
 pub open spec fn vx_tables_wf<R: Registry>(m: IMap<archetype::IdentifierRef<R>, archetype::Archetype<R>>) -> bool {
@@ -484,6 +498,22 @@ def lookups_ens(dom):
             ("C13.archs.type_cache", f"final(self).inv_type_cache({dom})")]
 
 
+EQ_STEP = r'''proof {
+                let k = vx_keys1@[vx_i1 as int];
+                assert(vx_keys1@.contains(k));
+                assert(self@.dom().contains(k));
+                assert(self@[k].key() == k);
+            }'''
+
+EQ_END = r'''proof {
+            assert forall|k: archetype::IdentifierRef<R>| self@.dom().contains(k) implies vx_has_equal_partner(#[trigger] self@[k], other@) by {
+                assert(vx_keys1@.contains(k));
+                let j = choose|j: int| 0 <= j < vx_keys1@.len() && vx_keys1@[j] == k;
+                assert(vx_has_equal_partner(self@[vx_keys1@[j]], other@));
+            }
+        }'''
+
+
 def build():
     u = arch.build()
     u.name = "archs"
@@ -623,6 +653,33 @@ def build():
                Hint("end", CF_END),
            ],
            props=["C10", "C13", "C01", "C04"]),
+    ])
+
+    AE = "src/archetypes/impl_eq.rs"
+    EQIMPL = r"^impl<R> cmp::PartialEq for Archetypes<R>"
+    u.impl("impl<R> Archetypes<R> where R: Registry", [
+        Fn(AE, EQIMPL, "eq", ret="b", vis="pub",
+           rewrites=[(r"self\.iter\(\)\.all\(\|archetype\| \{\s*other\s*\.get_with_foreign\(\s*unsafe \{ archetype\.identifier\(\) \},?\s*\)\s*\.map_or\((\w+), \|other_archetype\|\s*unsafe \{\s*archetype\.component_eq\(other_archetype\)\s*\}\)\s*\}\)",
+                      "let vx_keys1 = self.raw_archetypes.vx_keys(); let vx_n1 = self.raw_archetypes.vx_len(vx_keys1); let mut vx_i1: usize = 0;\n"
+                      "        while vx_i1 < vx_n1 {\n"
+                      "            let archetype = self.raw_archetypes.vx_nth(vx_i1, vx_keys1);\n"
+                      "            if !(match other.get_with_foreign(unsafe { archetype.identifier() }) { Some(other_archetype) => unsafe { vx_component_eq(archetype, other_archetype) }, None => \\1 }) { return false; }\n"
+                      "            vx_i1 += 1;\n"
+                      "        }\n"
+                      "        return true;",
+                      "R14/R5g: `self.iter().all(|t| P(t))` over the hashbrown table -> index loop over a ghost enumeration of its keys that returns false at the first element failing P; `Option::map_or(false, f)` -> the match it is defined to be; Archetype::component_eq -> assumed-contract call (K-eq)")],
+           requires=[("pre.archs_wf", "self.wf()"), ("pre.other_wf", "other.wf()")],
+           ensures=[("C16.archetypes_eq", "b == (self.raw_archetypes.count() == other.raw_archetypes.count() && forall|k: archetype::IdentifierRef<R>| self@.dom().contains(k) ==> vx_has_equal_partner(#[trigger] self@[k], other@))")],
+           loops=[Loop(invariant=[
+               ("eq.enum", "vx_keys1@.len() == vx_n1 && vx_i1 <= vx_n1 && self.raw_archetypes.enumerates(vx_keys1@)"),
+               ("eq.wf", "self.wf() && other.wf() && vx_single_table(other@)"),
+               ("eq.count", "self.raw_archetypes.count() == other.raw_archetypes.count()"),
+               ("eq.done", "forall|j: int| 0 <= j < vx_i1 ==> vx_has_equal_partner(#[trigger] self@[vx_keys1@[j]], other@)"),
+           ], decreases="vx_n1 - vx_i1")],
+           hints=[Hint("start", "proof { other.lemma_single_table(); }"),
+                  Hint("after", EQ_STEP, anchor=r"let archetype = self\.raw_archetypes\.vx_nth\(vx_i1, vx_keys1\)"),
+                  Hint("before", EQ_END, anchor=r"return true;")],
+           props=["C16"]),
     ])
     u.for_rewrites += [
         (r"for (\w+) in source\.iter\(\)",
